@@ -19,7 +19,7 @@ func retryLoop(c *Ctx, aspects map[string]bool) {
 		c.Unresolved("retrypolicy.executor.Apply", "retry executor not resolved")
 		return
 	}
-	ee := c.NewExecEval(info, EvalConfig{MaxVisits: 3})
+	ee := c.NewExecEval(info, EvalConfig{MaxVisits: visits(3)})
 	paths, innerFn, exec := ee.RunApply()
 	ev := ee.Ev
 	apply := info.Slots["Apply"]
